@@ -330,6 +330,18 @@ def gen_c13(tier, seed):
         if rng.random() < 0.5:
             steps += [bk(o)]
         scens.append({"id": sid("C13", "flt", i), "props": ["C13"], "mode": "fault", "tags": ["faults"], "steps": steps})
+    # directed: several files with the same content, each stored as a block of its own, and every
+    # write of the run made to fail in turn: what a failed block write leaves in memory must not make a
+    # later identical block look stored
+    for i in range(4 if tier == "quick" else 40):
+        c = bytes([rng.choice([1, 2, 3])]) * rng.randrange(2, 5)
+        t = [node("/", "Dir")] + [node("/" + nm, "File", c, mt=(1600000800 + j, 0)) for j, nm in enumerate(rng.sample(["a", "b", "c", "d", "e"], 3))]
+        t.append(node("/z", "File", bytes([7]) * rng.randrange(1, 4)))
+        o = {"H": rng.choice([1, 2, 1000]), "M": rng.choice([len(c), 1000]), "S": rng.choice([0, 1])}
+        scens.append({"id": sid("C13", "dupflt", i), "props": ["C13"], "mode": "fault", "tags": ["faults", "duplicates"],
+                      "steps": [{"op": "tree", "tree": t},
+                                {"op": "sweep", "base": bk(o), "mode": "fail", "verbs": ["write"], "kinds": ["Other", "AlreadyExists"], "sample": 0,
+                                 "seed": seed * 100 + i, "then": []}]})
     # more index hunks than one index sub-directory holds (10 000): a real backup of 10 050 empty
     # files with one entry per hunk; and, for the reader, an archive written by the harness with hunks
     # on both sides of that boundary
